@@ -207,4 +207,41 @@ def run(ctx):
     ctx.floor("R04.3", "mantissa_sites", n_mant, 1)
     lr.rule_byte_offsets(ctx, "R04.4")
     lr.rule_ascii_lookahead_premise(ctx, "R04.4p")
+    rule_every_variant_built(ctx, "R04.10")
     ctx.assume("decimal spellings are delegated to rust_decimal's FromStr; BEGINEXT content is kept as written tokens; arbitrary statement order is accepted because every construct parser is an order-insensitive loop (not re-checked here)")
+
+
+def rule_every_variant_built(ctx, rid):
+    """A statement form that the data model has a payload-carrying variant for can only be *yielded* if some function of
+    the reader's side constructs that variant: a variant built nowhere (two keywords folded onto one variant, a
+    constructor replaced by its sibling) means the statement comes back as something else or not at all."""
+    ctx.rule(rid, "every payload-carrying variant of a lef21::data enum (error types excepted) is constructed by some non-derived function of lef21 outside the writer")
+    F = ctx.F
+    built = {}
+    for f in F.fns.values():
+        if not f.id.startswith("lef21::") or f.short.startswith("<") or f.short.startswith("write::"):
+            continue
+        b = Body(f)
+        for blk in b.blocks:
+            for st in blk["st"]:
+                rv = st.get("rv", {})
+                if rv.get("k") == "agg" and rv.get("ak") == "adt" and "variant" in rv:
+                    built.setdefault((rv["id"], rv["variant"]), f)
+    n = 0
+    for eid, a in sorted(F.adts.items()):
+        if not eid.startswith("lef21::data::") or eid.split("::")[-1].endswith("Error"):
+            continue
+        vs = a.get("variants") or []
+        if len(vs) < 2:
+            continue
+        for v in vs:
+            if not v.get("fields"):
+                continue   # unit variants are read through the EnumStr tables (R04.2)
+            n += 1
+            key = "%s::%s" % (eid.split("::")[-1], v["name"])
+            g = built.get((eid, v["name"]))
+            if g is None:
+                ctx.violation(rid, key, "no function of the LEF reader constructs %s: the statement form it stands for is read as a different variant or dropped" % key, "lef21/src/data.rs", key)
+            else:
+                ctx.ok(rid, key, "constructed in %s" % g.short)
+    ctx.floor(rid, "payload_variants", n, 10)
